@@ -579,11 +579,7 @@ func (fr *frame) callBuiltin(callpos token.Pos, fn *ssa.Builtin, args []value) v
 		case string:
 			return BV(uint64(len(x)), 64)
 		case *SymStr:
-			n, ok := x.length()
-			if !ok {
-				panic(pathAbort{"len of a string of unknown length (" + x.String() + ")"})
-			}
-			return BV(uint64(n), 64)
+			return m.strLen(x)
 		case array:
 			return BV(uint64(len(x)), 64)
 		case *value:
